@@ -221,7 +221,28 @@ func genC06Bad(t *rapid.T) c06Bad {
 		b[2], b[3] = byte(w>>8), byte(w)
 		return b
 	}
-	switch rapid.IntRange(0, 3).Draw(t, "bad.kind") {
+	switch rapid.IntRange(0, 4).Draw(t, "bad.kind") {
+	case 4:
+		// APP: the P bit is set but the padding count (last octet, which counts itself, RFC 3550
+		// section 6.4.1) is 0 or larger than the octets that follow the name
+		p := gen.PacketOf(t, m.KAPP)
+		if len(p.APP.Data) > 64 {
+			p.APP.Data = p.APP.Data[:64]
+		}
+		e, _ := m.Encode(p, &m.EncOpts{APPPadWords: rapid.IntRange(0, 2).Draw(t, "app.padwords")})
+		b := e.B
+		if b[0]&0x20 == 0 {
+			// aligned data and no padding words: give it one word to carry the bad count
+			b = fix(append(b, 0, 0, 0, 0))
+			b[0] |= 0x20
+		}
+		room := len(b) - 12
+		count := rapid.SampledFrom([]int{0, 0, room + 1, room + 2, 255}).Draw(t, "app.count")
+		if count != 0 && count <= room {
+			count = 0
+		}
+		b[len(b)-1] = byte(count)
+		return c06Bad{Why: fmt.Sprintf("APP with the P bit set and padding count %d (%d octets after the name)", count, room), Kind: m.KAPP, Frame: b}
 	case 0:
 		// REMB: Num SSRC disagrees with the frame length (surplus words), at every size class
 		p := gen.PacketOf(t, m.KREMB)
